@@ -86,7 +86,10 @@ fn subsets(ctx: &mut Ctx, rook: bool, s: Sq, noise_variants: usize) {
     }
     let n = rel.len();
     ctx.begin_case(&format!("slider:{}:{}:all-{}-subsets", if rook { "rook" } else { "bishop" }, sq_name(s), 1u64 << n));
-    for sub in 0..(1u64 << n) {
+    // under Miri a strided sample of the subsets (all squares, both sliders, ~48 subsets each)
+    let stride = if ctx.config == "miri" { ((1u64 << n) / 48).max(1) } else { 1 };
+    let offset = if stride > 1 { ctx.seed % stride } else { 0 };
+    for sub in (0..(1u64 << n)).filter(|x| x % stride == offset) {
         let mut occ = 0u64;
         for (i, &r) in rel.iter().enumerate() {
             if sub & (1 << i) != 0 {
@@ -101,7 +104,7 @@ fn subsets(ctx: &mut Ctx, rook: bool, s: Sq, noise_variants: usize) {
         }
         ctx.nontrivial(format!("{}{}{:x}", rook, s, occ).as_bytes());
     }
-    ctx.feature_n(if rook { "rook_blocker_subsets" } else { "bishop_blocker_subsets" }, 1u64 << n);
+    ctx.feature_n(if rook { "rook_blocker_subsets" } else { "bishop_blocker_subsets" }, (1u64 << n) / stride);
 }
 
 fn leapers(ctx: &mut Ctx) {
@@ -205,9 +208,6 @@ pub fn run(ctx: &mut Ctx) {
         for s in 0..64u8 {
             item += 1;
             if !ctx.mine(item) {
-                continue;
-            }
-            if miri && !(s % 9 == 0) {
                 continue;
             }
             subsets(ctx, rook, s, if miri { 0 } else { 2 });
